@@ -115,7 +115,7 @@ var words = []string{"a", "b", "cc", "key", "x1", "zed", "q", "w0"}
 
 func (g *Gen) str() string {
 	if g.R.Chance(g.Cfg.BigRate) {
-		n := 40 + g.R.Intn(400)
+		n := 40 + g.R.Intn(1300)
 		var sb strings.Builder
 		for sb.Len() < n {
 			sb.WriteString(words[g.R.Intn(len(words))])
@@ -132,6 +132,22 @@ func (g *Gen) size() int {
 	return g.R.Intn(5)
 }
 
+// sizeAt bounds container sizes by nesting depth and element kind, so that values stay in the kilobyte range
+func (g *Gen) sizeAt(depth int, elem *Ty) int {
+	n := g.size()
+	switch {
+	case depth >= 2 && n > 4:
+		n = 4
+	case depth == 1 && !isPrim(elem) && n > 6:
+		n = 6
+	case depth == 0 && !isPrim(elem) && n > 40:
+		n = 40
+	case depth == 1 && n > 40:
+		n = 40
+	}
+	return n
+}
+
 func (g *Gen) valOf(t *Ty, depth int) *Val {
 	switch t.K {
 	case "Int":
@@ -144,10 +160,7 @@ func (g *Gen) valOf(t *Ty, depth int) *Val {
 		return VEnum(int64(g.R.Intn(3)))
 	case "Arr":
 		v := VArr(t)
-		n := g.size()
-		if depth > 1 && n > 6 {
-			n = 6
-		}
+		n := g.sizeAt(depth, t.Elem)
 		for i := 0; i < n; i++ {
 			v.Elems = append(v.Elems, g.valOf(t.Elem, depth+1))
 		}
@@ -158,19 +171,21 @@ func (g *Gen) valOf(t *Ty, depth int) *Val {
 			v.Elems = append(v.Elems, g.valOf(t.Elem, depth+1))
 		}
 		return v
+	case "Opt":
+		if g.R.Chance(0.25) {
+			return VNil(t)
+		}
+		return VSome(t, g.valOf(t.Elem, depth+1))
 	case "Dict":
 		v := VDict(t)
-		n := g.size()
-		if depth > 1 && n > 6 {
-			n = 6
-		}
+		n := g.sizeAt(depth, t.Elem)
 		for i := 0; i < n; i++ {
 			v.DictSet(g.valOf(t.Key, depth+1), g.valOf(t.Elem, depth+1))
 		}
 		return v
 	case "S":
 		var xs []int64
-		for i, n := 0, g.size(); i < n; i++ {
+		for i, n := 0, g.sizeAt(depth+1, TInt); i < n; i++ {
 			xs = append(xs, int64(g.R.Intn(100)))
 		}
 		m := map[string]int64{}
@@ -183,7 +198,14 @@ func (g *Gen) valOf(t *Ty, depth int) *Val {
 				kids = append(kids, g.valOf(TS, depth+1))
 			}
 		}
-		return VS(int64(g.R.Intn(100)), xs, m, kids...)
+		s := VS(int64(g.R.Intn(100)), xs, m, kids...)
+		if g.R.Chance(0.5) {
+			s.F["o"] = VSome(TOpt(TString), VStr(g.str()))
+		}
+		if g.R.Chance(0.5) {
+			s.F["oa"] = VSome(TOpt(TArr(TInt)), g.valOf(TArr(TInt), depth+1))
+		}
+		return s
 	}
 	panic("harness: valOf " + t.K)
 }
@@ -192,7 +214,7 @@ var storableTypes = []*Ty{
 	TInt, TString, TBool, TE, TS,
 	TArr(TInt), TArr(TString), TArr(TS), TArr(TArr(TInt)), TArr(TAnyS),
 	TDict(TString, TInt), TDict(TInt, TString), TDict(TString, TArr(TInt)), TDict(TString, TS),
-	TCArr(TInt, 3),
+	TCArr(TInt, 3), TArr(TOpt(TString)), TArr(TOpt(TArr(TInt))),
 }
 
 func (g *Gen) anyVal() *Val {
@@ -599,7 +621,7 @@ func min(a, b int) int {
 }
 
 func (g *Gen) copyOp() Op {
-	types := []*Ty{TS, TArr(TS), TDict(TString, TArr(TInt))}
+	types := []*Ty{TS, TS, TArr(TS), TDict(TString, TArr(TInt)), TArr(TOpt(TArr(TInt)))}
 	t := types[g.R.Intn(len(types))]
 	pred := func(v *Val) bool { return v.T.Equal(t) }
 	if _, _, ok := g.occupied(pred); !ok || g.R.Chance(0.1) {
@@ -612,7 +634,10 @@ func (g *Gen) copyOp() Op {
 			}
 		case "Arr":
 			if len(v.Elems) == 0 {
-				v.Elems = append(v.Elems, g.valOf(TS, 1))
+				v.Elems = append(v.Elems, g.valOf(t.Elem, 1))
+			}
+			if t.Elem.K == "Opt" && v.Elems[0].Opt == nil && g.R.Chance(0.8) {
+				v.Elems[0] = VSome(t.Elem, g.valOf(t.Elem.Elem, 2))
 			}
 		case "Dict":
 			v.DictSet(VStr("a"), g.valOf(TArr(TInt), 1))
@@ -622,6 +647,9 @@ func (g *Gen) copyOp() Op {
 	a, p := g.target(pred)
 	g.nonce++
 	o := Op{K: "cp.probe", A: a, P: p, T: t, S: CopyForms[g.R.Intn(len(CopyForms))], I: g.R.Intn(7), J: g.R.Intn(2), N: g.nonce}
+	if t.K == "S" {
+		o.I = g.R.Intn(10)
+	}
 	if g.R.Chance(0.3) {
 		_, o.Q = g.free()
 		if g.M.Accts[a].Storage[o.Q] != nil {
